@@ -89,7 +89,7 @@ def c20_casesv(lines):
     rows = []
     for l in lines:
         f = l.split()
-        b = ["true" if x == "1" else "false" for x in f[6:11]]
+        b = ["true" if x == "1" else "false" for x in f[6:12]]
         rows.append("verdict_ok (check_case acts %s%%N %s%%N (mkObs %s %s))" % (f[1], f[2], CLS.get(f[5], "OOther"), " ".join(b)))
     return ("From Coq Require Import List NArith String.\nImport ListNotations.\nFrom Glb Require Import Model.Daemon Check.C20.\n"
             "Open Scope string_scope.\nDefinition acts : list action := " + st["coq"] + ".\n"
@@ -99,6 +99,10 @@ def c20_casesv(lines):
 def c20_sig(line):
     if "signal: interrupt" in line or " run " in line:
         return "launcher-killed-by-early-done"
+    if "survived_300ms_after_return=0" in line or re.search(r"^E( \S+){10} 0 ", line):
+        return "daemon-dies-after-return"
+    if " stderr " in line or "daemon_stderr=b" in line:
+        return "daemon-stderr-fails-launch"
     return "launch"
 
 
@@ -113,11 +117,13 @@ CFG = dict(
     sig=c20_sig,
     race=False,
     harness_timeout={"quick": 180, "thorough": 1800},
-    coq_sample={"quick": 30, "thorough": 200},
+    coq_sample={"quick": 60, "thorough": 200},
     rule=("real processes: daemon delay before Done() {0, 50, 300 ms} x launcher pause right after cmd.Start() {0, 200 ms} "
-          "(hook VERIF_PAUSE_LAUNCH_AFTERSTART) x {1, 4} concurrent Launch calls (thorough: 6 delays x 4 pauses x {1,4,8}, 5 rounds); "
-          "one case = one Launch call with what was observed when it returned; non-trivial = distinct (delay, pause, concurrency) "
-          "timing classes"),
+          "(hook VERIF_PAUSE_LAUNCH_AFTERSTART) x {1, 4} concurrent Launch calls with a silent daemon, plus the daemon handler "
+          "variants 'stderr line before Done()', 'stderr line 100 ms after Done()', 'both' on the two extreme timings x {1, 4} "
+          "(thorough: 6 delays x 4 pauses x {1,4,8} x all 4 variants, 5 rounds); one case = one Launch call with what was observed "
+          "when it returned and again ~300 ms later (daemon still running, past its late stderr write); non-trivial = distinct "
+          "(delay, pause, concurrency, stderr variant) scenarios"),
     trusted_base=[HARNESS_TB, EXTRACT_TB,
                   "gen/glbfacts launch: the syntactic reading of func launch as an action list (unrecognised statements become "
                   "AUnknown and fail the discipline); validated on every run by the timing-forced harness cases",
@@ -128,6 +134,10 @@ CFG = dict(
                  "the registered handler reaches Done() and keeps running (the property's premise); a daemon that exits or crashes "
                  "before Done() is outside the statement",
                  "cmd.Start() succeeds and the pid fits the 4-byte stdout protocol",
+                 "GO SIDE ONLY: the daemon's standard streams are outside Model/Daemon.v. That a daemon which writes to its stderr "
+                 "before Done() does not make Launch fail, and that its first stderr write after Launch returned does not kill it "
+                 "(no broken pipe tied to the caller), is part of 'the daemon keeps running after Launch returns' that is checked by "
+                 "the harness (flag o_survived of Check/C20.v, handler variants none/before/after/both), not proved",
                  "concurrent Launch calls are independent process trees (no shared state besides os.Args[0] and the environment): "
                  "proved for one Launch, exercised for 1/4/8 concurrent ones",
                  "no other SIGINT reaches the launcher (e.g. from a terminal's foreground process group) during the hand-shake"],
@@ -146,6 +156,7 @@ CFG["manifest"] = dict(
     note=("PARTIAL: process and signal semantics are the kernel's and the Go runtime's; Model/Daemon.v is a model of them (SIGINT "
           "without handler kills, orphans are re-parented, signal delivery is asynchronous), exercised but not derived. Trusted: Coq "
           "kernel; the glbfacts reading of func launch; extraction + OCaml glue (cross-checked by vm_compute sample); Go harness and "
-          "/proc. Concurrent launches are exercised, not modelled (independent process trees)."),
+          "/proc. Concurrent launches are exercised, not modelled (independent process trees). The daemon's stdio "
+          "(a stderr inherited from the launcher would tie the orphan to the caller's pipe) is exercised, not modelled."),
     technique="Coq proof (interleaving LTS, invariant + measure) over a source-extracted action list + forced-schedule process-level correspondence",
 )
